@@ -20,8 +20,9 @@ def main():
         try:
             r = chk(a.tier, a.seed)
         except Exception:
-            print(json.dumps({"error": "check %s crashed:\n%s" % (chk.__name__, traceback.format_exc())}))
-            return 0
+            out.setdefault("crashes", []).append("check %s crashed:\n%s" % (chk.__name__, traceback.format_exc()[-1500:]))
+            out["exhaustive"] = False
+            continue
         r.setdefault("name", chk.__name__)
         r["wall_s"] = round(time.time() - t0, 2)
         out["evaluations"] += int(r.get("evaluations", 0))
